@@ -35,7 +35,7 @@ Section Total.
   Definition rgood {A} (x : res A) : Prop := match x with Ok _ => True | Err e => e <> E_FUEL | Panic _ => False end.
 
   Hypothesis H_pos : forall r, RI r -> exists p, r_pos r = Ok p.
-  Hypothesis H_len : forall r, RI r -> (Z.of_nat (rem r) <= r_len r)%Z.
+  Hypothesis H_len : forall r p, RI r -> r_pos r = Ok p -> (Z.of_nat (rem r) <= r_len r - p)%Z.
   Hypothesis H_readbyte : forall r, RI r -> opspec true r (r_readbyte r).
   Hypothesis H_readn : forall r n, RI r -> opspec false r (r_readn r n).
   Hypothesis H_readbuf : forall r l, RI r -> opspec false r (r_readbuf r l).
@@ -322,10 +322,11 @@ Section Total.
   Proof.
     induction d as [|d IH]; intros sc mi ic r HI Hd; [lia|].
     cbn [parse]. destruct (nth_error sc mi) as [m|]; [|cbn; discriminate].
+    destruct (H_pos r HI) as [p0 Hp0]. rewrite Hp0.
     apply (t_ploop (g_parse d sc) d).
     - intros m' ic' sr HIs Hs. apply IH; assumption.
     - exact HI.
     - lia.
-    - pose proof (H_len r HI). lia.
+    - pose proof (H_len r p0 HI Hp0). lia.
   Qed.
 End Total.
